@@ -82,6 +82,7 @@ type c06Event struct {
 	w, i      int
 	call, ret int64
 	res       string
+	raw       string
 }
 
 // outcome of an execution: per-call results in program order + final snapshot
@@ -199,11 +200,18 @@ func c06Program(c *rt.Ctx, fsType string, treeNo int, tree []fsx.Op, progs [][]f
 		}
 		c.Rep.Case(fmt.Sprintf("%s|tree%d|switches=%d", sigBase, treeNo, min3(e.Switches, 5)), e.Switches > 0)
 		if v == sched.Deadlock {
-			c.Rep.Count("deadlocked_schedules", 1) // reported by C07
+			c.Rep.Count("deadlocked_schedules", 1)
+			if c07OnlyReturns {
+				c.Disagree(sigBase+"|deadlock", fmt.Sprintf("%s: a schedule of %v ends with every unfinished goroutine waiting for a lock: %s", fsType, progText(progs), desc), replay(map[string]any{"verdict": "deadlock", "who_waits": desc}))
+			}
 			return
 		}
 		if v != sched.Completed {
-			c.Rep.Inconclusive = append(c.Rep.Inconclusive, "runaway execution: "+desc)
+			if c07OnlyReturns {
+				c.Disagree(sigBase+"|runaway", fmt.Sprintf("%s: a schedule of %v does not terminate: %s", fsType, progText(progs), desc), replay(map[string]any{"verdict": "runaway"}))
+			} else {
+				c.Rep.Inconclusive = append(c.Rep.Inconclusive, "runaway execution: "+desc)
+			}
 			return
 		}
 		results := make([][]string, len(progs))
@@ -215,10 +223,17 @@ func c06Program(c *rt.Ctx, fsType string, treeNo int, tree []fsx.Op, progs [][]f
 			results[ev.w][ev.i] = ev.res
 			if ev.res == "panic" || ev.res == "deadlock" {
 				panicked = true
+				results[ev.w][ev.i] = ev.res + "(" + ev.raw + ")"
 			}
 		}
 		if panicked {
-			c.Rep.Count("schedules_with_panic", 1) // reported by C07
+			c.Rep.Count("schedules_with_panic", 1)
+			if c07OnlyReturns {
+				c.Disagree(sigBase+"|panic", fmt.Sprintf("%s: a call panics in a schedule of %v: results %v", fsType, progText(progs), results), replay(map[string]any{"verdict": "panic", "results": results}))
+			}
+			return
+		}
+		if c07OnlyReturns {
 			return
 		}
 		snap := fsx.Snap(in.root, "/", fsx.SnapOpts{SymSize: true})
@@ -292,7 +307,7 @@ func c06Program(c *rt.Ctx, fsType string, treeNo int, tree []fsx.Op, progs [][]f
 					e.Boundary()
 					call := e.Clock
 					r := env.Exec(o)
-					evs[w] = append(evs[w], c06Event{w: w, i: i, call: call, ret: e.Clock, res: r.Err})
+					evs[w] = append(evs[w], c06Event{w: w, i: i, call: call, ret: e.Clock, res: r.Err, raw: r.Raw})
 				}
 			}
 		}
